@@ -2,7 +2,10 @@ use std::collections::VecDeque;
 use std::net::SocketAddr;
 use std::sync::Arc;
 use std::sync::atomic::{AtomicU16, Ordering};
+#[cfg(not(rustrtc_verif))]
 use tokio::net::UdpSocket;
+#[cfg(rustrtc_verif)]
+use crate::verif_hooks::UdpSocket;
 
 /// Configuration for UDPTL transport.
 #[derive(Debug, Clone)]
